@@ -1671,14 +1671,23 @@ def _make_gin_wrapper(fn, fn_or_cls, name, selector, allowlist, denylist):
     # `ConfigurableReference` instances buried somewhere inside `new_kwargs`.
     # See the docstring on `ConfigurableReference.__deepcopy__` above for more
     # details on the dark magic happening here.
+    marker_bound = {k for k, v in new_kwargs.items() if v is REQUIRED}
     new_kwargs = copy.deepcopy(new_kwargs)
+    # A binding that is (or evaluates to) the marker itself, e.g. a parameter
+    # left at `%gin.REQUIRED`, supplies no value.
+    marker_bound = [
+        k for k, v in new_kwargs.items() if k in marker_bound or v is REQUIRED
+    ]
+    for arg_name in marker_bound:
+      del new_kwargs[arg_name]
 
     # Validate args marked as REQUIRED have been bound in the Gin config.
-    missing_required_params = []
+    missing_required_params = list(marker_bound)
     new_args = list(args)
     for i, arg_name in zip(required_arg_indexes, required_arg_names):
       if arg_name not in new_kwargs:
-        missing_required_params.append(arg_name)
+        if arg_name not in missing_required_params:
+          missing_required_params.append(arg_name)
       else:
         new_args[i] = new_kwargs.pop(arg_name)
 
@@ -1686,10 +1695,12 @@ def _make_gin_wrapper(fn, fn_or_cls, name, selector, allowlist, denylist):
     for required_kwarg in signature_required_kwargs:
       if (required_kwarg not in arg_names and  # not a positional arg
           required_kwarg not in kwargs and  # or a keyword arg
-          required_kwarg not in new_kwargs):  # or bound in config
+          required_kwarg not in new_kwargs and  # or bound in config
+          required_kwarg not in missing_required_params):
         missing_required_params.append(required_kwarg)
     for required_kwarg in caller_required_kwargs:
-      if required_kwarg not in new_kwargs:
+      if (required_kwarg not in new_kwargs and
+          required_kwarg not in missing_required_params):
         missing_required_params.append(required_kwarg)
       else:
         # Remove from kwargs and let the new_kwargs value be used.
